@@ -145,3 +145,21 @@ def build_gm2calc(repo=None):
     if r.returncode != 0:
         raise NativeError('link failed:\n%s' % r.stderr[-2000:])
     return exe
+
+def build_against_library(wd, main_src, name='prog', repo=None):
+    """compile main_src and link it with ALL library objects built from the working tree (cache shared with build_gm2calc)"""
+    repo = repo or REPO
+    exe0 = build_gm2calc(repo)
+    cdir = os.path.dirname(exe0)
+    objs = [os.path.join(cdir, f) for f in os.listdir(cdir) if f.endswith('.o') and not f.endswith('src_gm2calc.cpp.o')]
+    src = os.path.join(wd, name + '.cpp')
+    with open(src, 'w') as f:
+        f.write(main_src)
+    exe = os.path.join(wd, name + '.x')
+    inc = includes(repo)
+    if os.path.exists(os.path.join(cdir, 'gm2calc', 'gm2_version.h')):
+        inc = ['-I' + cdir] + inc
+    r = subprocess.run(['g++'] + CXXFLAGS + inc + [src] + objs + ['-o', exe], capture_output=True, text=True)
+    if r.returncode != 0:
+        raise NativeError('program build failed:\n%s' % r.stderr[-3000:])
+    return exe
